@@ -34,7 +34,8 @@ where
                 }
                 "pop_front" => opt(d.pop_front()),
                 "pop_back" => opt(d.pop_back()),
-                "advance" => d.advance(geti(op, "n") as usize) as i64,
+                // "max": the count is usize::MAX (the event keeps a large finite n: same meaning for the spec)
+                "advance" => d.advance(if op["max"].as_bool().unwrap_or(false) { usize::MAX } else { geti(op, "n") as usize }) as i64,
                 "clear" => {
                     d.clear();
                     -1
